@@ -552,6 +552,11 @@ impl Process {
     /// process.
     #[must_use = "send SIGCHLD if process state has changed"]
     pub fn raise_signal(&mut self, signal: signal::Number) -> SignalResult {
+        // A terminated process (a zombie) is not affected by signals.
+        if !self.state.is_alive() {
+            return SignalResult::default();
+        }
+
         let process_state_changed =
             signal == signal::SIGCONT && self.set_state(ProcessState::Running);
 
